@@ -263,6 +263,10 @@ Judge(ev) ==
      [] op = "square"     -> JMult(ev)
      [] op = "mult_digit" -> JMultDigit(ev)
      [] op = "div"        -> JDiv(ev)
+     [] op = "digit_mult" -> IF ev.r = XMul(ev.a, ev.b) THEN "ok" ELSE "success-with-wrong-value"       \* a, b < 2^w; r = hi:lo
+     [] op = "digit_div"  -> IF IsZ(ev.b) THEN (IF ev.rc # 0 THEN "ok" ELSE "division-by-zero-accepted")   \* a < 2^(2w), b < 2^w
+                             ELSE IF ev.rc # 0 THEN "error-not-allowed"
+                             ELSE IF << ev.r, ev.r2 >> = XDivMod(ev.a, ev.b) THEN "ok" ELSE "success-with-wrong-value"
      [] op = "l_shift"    -> JLShift(ev)
      [] op = "r_shift"    -> JRShift(ev)
      [] op = "and"        -> JBitOp(ev, BitAnd(ev.a, ev.b))
@@ -310,7 +314,9 @@ Judge(ev) ==
 \* input class of a rejected call - keeps known findings narrow
 Shape(ev) ==
    LET op == ev.op IN
-   CASE op = "sqrt" -> IF IsZ(ev.a) THEN "a=0" ELSE IF BitLen(ev.a) % 2 = 1 THEN "odd-bit-length" ELSE "even-bit-length"
+   CASE op = "and" -> IF Dg(ev.a, ev.w) >= Dg(ev.b, ev.w) + 2 THEN "n-two-or-more-digits-shorter" ELSE ev.al
+     [] op = "digit_div" -> IF ~IsZ(ev.b) /\ ev.b = Pow2(BitLen(ev.b) - 1) THEN (IF Dg(ev.a, ev.w) > 1 THEN "power-of-two-divisor,two-digit-dividend" ELSE "power-of-two-divisor") ELSE "other-divisor"
+     [] op = "sqrt" -> IF IsZ(ev.a) THEN "a=0" ELSE IF BitLen(ev.a) % 2 = 1 THEN "odd-bit-length" ELSE "even-bit-length"
      [] op = "mult_digit" -> IF ev.b = << 2 >> THEN "d=2" ELSE IF ev.b = << 3 >> THEN "d=3" ELSE "d>3"
      [] op \in {"gcd", "gcd_bin"} -> IF Fits(XGcd(ev.a, ev.b), ev.w, (IF ev.al \in {"da", "all"} THEN ev.ca ELSE IF ev.al = "db" THEN ev.cb ELSE ev.cr))
                                      THEN ev.al ELSE "result-exceeds-declared-capacity"
